@@ -227,6 +227,11 @@ func runHist(c c03Case) interface{} {
 		}
 		snapshot(g, &st)
 		steps = append(steps, st)
+		for _, s := range stubs {
+			if s.expiredProbes() > 0 {
+				return map[string]interface{}{"inconclusive": "a held /healthz request hit the prober's 5 s timeout"}
+			}
+		}
 	}
 	return map[string]interface{}{"steps": steps}
 }
